@@ -15,7 +15,7 @@ import (
 )
 
 // C04 (Engine W, batch enumeration): every ordered selection of <= 3 swap requests out of a
-// 10-request alphabet is placed in ONE real block (each request has its own sender and, where
+// 11-request alphabet is placed in ONE real block (each request has its own sender and, where
 // stated, its own recipient so that balance deltas are attributable), alone and together with one
 // price-moving transaction before or after them; the block is followed by an empty block.
 
@@ -61,6 +61,7 @@ func c04Requests() []c04Req {
 		{Name: "out_2hop_atom_usdc_elys_loose", Sender: "q7", In: "uatom", Out: "uelys", ExactOut: true, Amt: 1e9, Limit: 1e12, Mid: "uusdc"},
 		{Name: "bydenom_usdc_atom", Sender: "q8", In: "uusdc", Out: "uatom", Amt: 1e9, Limit: 1},
 		{Name: "in_p2_elys_usdc_tight", Sender: "q9", In: "uelys", Out: "uusdc", Amt: 1e10, Limit: 29000000000},
+		{Name: "bydenom_exact_out_atom_for_usdc", Sender: "r0", In: "uusdc", Out: "uatom", ExactOut: true, Amt: 5e8, Limit: 1e10},
 	}
 	rs[0].Build = in(&rs[0], rin(1, "uatom"))
 	rs[1].Build = in(&rs[1], rin(1, "uatom"))
@@ -74,6 +75,11 @@ func c04Requests() []c04Req {
 		return &ammtypes.MsgSwapByDenom{Sender: w.A(r.Sender).Addr.String(), Amount: C("uusdc", r.Amt), MinAmount: C("uatom", r.Limit), DenomIn: "uusdc", DenomOut: "uatom"}
 	}
 	rs[9].Build = in(&rs[9], rin(2, "uusdc"))
+	rs[10].Build = func(w *World, r *c04Req) sdk.Msg {
+		// exact-out by denom: Amount is the wanted OUT amount; MaxAmount (denominated in the out denom by
+		// the message's own rule) caps the input
+		return &ammtypes.MsgSwapByDenom{Sender: w.A(r.Sender).Addr.String(), Amount: C("uatom", r.Amt), MaxAmount: C("uatom", r.Limit), DenomIn: "uusdc", DenomOut: "uatom"}
+	}
 	return rs
 }
 
@@ -368,7 +374,7 @@ func c04Units(tier string) []interface{} {
 	if tier != "thorough" {
 		// quick: opposite-direction pairs on pool 1 (the end-blocker's reverse-pair logic) with every
 		// companion before/after, from R1
-		fwd, rev := []int{0, 1, 2, 4, 8}, []int{3, 5}
+		fwd, rev := []int{0, 1, 2, 4, 8, 10}, []int{3, 5}
 		for _, i := range fwd {
 			for _, j := range rev {
 				for _, pair := range [][]int{{i, j}, {j, i}} {
